@@ -84,6 +84,12 @@ def _iter_sentinel_loop(s):
     return ast.fix_missing_locations(w)
 
 
+# NumPy functions that build and return an array (never None): `x = np.unique(x); if x is not None:` does not fork
+NP_VALUE_FUNCS = frozenset('np.' + n for n in (
+    'unique sort asarray array arange zeros ones empty full zeros_like ones_like empty_like concatenate hstack vstack dstack stack intersect1d union1d setdiff1d '
+    'atleast_1d atleast_2d nonzero flatnonzero where cumsum diff isin in1d searchsorted argsort argmax argmin bincount tile repeat ravel reshape transpose '
+    'squeeze maximum minimum clip round floor ceil abs sum prod mean max min dot matmul take compress linspace').split())
+
 class State:
     __slots__ = ('env', 'heap', 'facts', 'trace', 'depth', 'seq')
 
@@ -951,6 +957,8 @@ class Interp:
 
     def _never_none(self, fname):
         """True when `fname` resolves (from the function being walked) to a repo function that ends with `return <expr>` and has no bare / None return and no yield."""
+        if fname in NP_VALUE_FUNCS:
+            return True
         cache = self.__dict__.setdefault('_nn_cache', {})
         key = (self.fi_stack[-1].module.rel if self.fi_stack else None, fname)
         if key in cache:
@@ -1343,6 +1351,24 @@ class Interp:
             itv = st.heap.get(itv, itv)
         if is_t(itv) and itv[1] in ('tuple', 'list'):
             return [list(itv[2:])]
+        if is_t(itv) and itv[1] == 'call' and itv[2] in ('zip', 'enumerate', 'reversed', 'list', 'tuple', 'iter') and len(itv) > 4:
+            # zip / enumerate / reversed of concrete sequences: the concrete sequence of tuples
+            seqs = []
+            for a in itv[4:]:
+                a = st.heap.get(a, a) if self._is_ref(a) else a
+                if not (is_t(a) and a[1] in ('tuple', 'list') and not any(is_t(x) and x[1] == 'star' for x in a[2:])):
+                    seqs = None
+                    break
+                seqs.append(list(a[2:]))
+            if seqs is not None:
+                if itv[2] == 'zip':
+                    return [[T('tuple', *row) for row in zip(*seqs)]]
+                if itv[2] == 'enumerate' and len(seqs) == 1:
+                    return [[T('tuple', C(i), x) for i, x in enumerate(seqs[0])]]
+                if itv[2] == 'reversed' and len(seqs) == 1:
+                    return [list(reversed(seqs[0]))]
+                if itv[2] in ('list', 'tuple', 'iter') and len(seqs) == 1:
+                    return [seqs[0]]
         return [[T('elem', itv, C(k)) for k in range(n)] for n in range(self.unroll + 1)]
 
     def _loop(self, s, st, sequences):
